@@ -937,11 +937,15 @@ def run_grid(ctx, rng, idx, plan, pols, cases, meta, defs):
 
 def run(ctx):
     WIRE['roundtrip'] = WIRE['fallback'] = 0
-    ctx.cov['rule'] = ('stores of 0-12 objects built through Register/Create/CreateKeyPair/Activate/Revoke under a controlled clock '
-                       '(7 object types, 3 owners, 7 policy names incl. group sections, missing and refusing policies, 4 states, names with both name types, '
-                       'object groups, application specific information, sensitive flag, equal and distinct Initial Dates) x conjunctions of 0-4 filters over the '
-                       '13 filter kinds of the property (+ attributes the server keeps no value for; type-guarded algorithm/length filters; 1, 2, 3 date filters) '
-                       'x offset/maximum in {absent,0,1,2,n,n+1,negative} x 12 requesters (with and without groups) x 6 protocol versions.  '
+    ctx.cov['rule'] = ('fixed grid (every filter kind aimed at every object of a store holding all seven stored types and a key pair, with and without a '
+                       'certificate in sight; date ranges in both orders, exact, empty, three dates with and without a visible object; type-guarded length filters) '
+                       'and seeded stores of 0-15 objects built through Register/Create/CreateKeyPair/Activate/Revoke under a controlled clock '
+                       '(7 object types, 3 owners, 8 policy choices incl. group sections, refusing, missing and absent policies, 4 states, names of both name types, '
+                       'object groups, application specific information, sensitive flag, equal / distinct / non-monotone Initial Dates; every 9th store partly created at '
+                       'the epoch, every 9th with NULL length or absent algorithm written through SQL) x conjunctions of 0-4 filters over the 13 filter kinds of the '
+                       'property (85% aimed at an object the requester can see; + attributes the server keeps no value for, + masks with undefined bits, '
+                       '+ type-guarded algorithm/length filters, + 1, 2, 3 date filters) x offset/maximum in {absent,0,1,2,n,n+1,negative} x 12 requesters '
+                       '(with and without groups) x 6 protocol versions; request and response payloads pass through TTLV write/read.  '
                        'A case is distinct by (store, requester, filter list, offset, maximum) and non-trivial when it has a filter or a non-empty answer.')
     ctx.regen(only=['attrrules', 'enums'])
     ctx.prove('props/C14.v')
@@ -950,8 +954,8 @@ def run(ctx):
     rng = ctx.subrng('locate')
     pols = build_policies()
     cases, meta, defs = [], [], ['Definition pols_ : policies :=\n  %s.' % policies_to_coq(pols)]
-    n_stores = 36 if quick else 160
-    n_requests = 14 if quick else 30
+    n_stores = 30 if quick else 160
+    n_requests = 12 if quick else 30
     sizes = [0, 1, 2, 3, 5, 8, 12]
     # fixed grid first: every filter kind x every stored type, without and with a certificate in sight
     run_grid(ctx, rng, 9000, GRID_PLAN, pols, cases, meta, defs)
